@@ -83,7 +83,7 @@ PROPS = {
         "parts": [
             {"engine": "D", "crate": "d_node", "harnesses": [
                 {"name": "c04_key_binding", "covers": ["foreign_key", "derived_key"], "quick": {"max_paths": 1000, "timeout": 600}},
-                {"name": "c07_union", "covers": ["transactions", "registers"], "quick": {"max_paths": 1000, "timeout": 600}},
+                {"name": "c07_union", "only": ["tx:foreign_owner_entry_never_stored", "no_panic"], "covers": ["transactions"], "quick": {"max_paths": 1000, "timeout": 600}},
             ]},
         ],
         "assumptions": NODE_ASSUMPTIONS,
